@@ -40,3 +40,9 @@ def run(repo, res, tier):
     t8 = parserules.add_rule(res, pan, "T8")
     for s in parserules.event_sites(pan, "next"):
         res.oblige("T6", s, ok=not any(f"{f.function} `{f.anchor}`" == s for f in t6))
+    # a real number of the decoder's real_cls followed by units is a quantity for the strict ODL parser too
+    from .. import hookrules as _hk2
+    _hk2.rule_h2(repo, res)
+    # values of the caller's substitute classes keep their class inside sets and sequences: no per-element conversion
+    from .. import hookrules as _hk4
+    _hk4.rule_h4(repo, res)
